@@ -546,7 +546,19 @@ def handleTimInt (vt base pows cs cn secs nanos obs : String) : Option LineResul
       (if !small || !(intFits vt exact) then .prop "dur.F11" "integer storage: the count or an intermediate overflows and the conversion panics instead of reporting Overflow"
        else .prop "tim.panic" "Time::try_from panicked")
     else if !(fits s && fits n) then (if obs == "overflow" then .ok else .prop "tim.class" "a count the storage type cannot hold must report Overflow")
-    else .ok
+    else match obs.splitOn ":" with
+      | ["ok", xs] =>
+        -- accuracy: integers have no ulps — the stored count is within two base units (one truncation per term)
+        -- of seconds + nanoseconds expressed in the base unit
+        match parseInt? xs with
+        | some x =>
+          if fac == 0 || cs == 0 then .ok
+          else
+            let d : Rat := ((s : Rat) + (n : Rat) / 1000000000) * cs / fac
+            if ratAbs ((x : Rat) - d) ≤ 2 then .ok
+            else .prop "tim.int.acc" "integer storage: the time is more than two base units away from seconds + nanoseconds"
+        | none => .ok
+      | _ => .ok
   return ⟨[mo, orc], [s!"tim:{vt}:{base}"], true⟩
 
 /-! ## C18 -/
